@@ -2,6 +2,8 @@ import Holpy.C10.IntModel
 import Holpy.C10.PolyModel
 import Holpy.C10.ProofsInt
 import Holpy.C10.ProofsPolySem
+import Holpy.C10.ProofsIntOrdBody
+import Holpy.C10.ProofsIntClosure
 /-
 C10 — property theorems about the integer Conv normaliser (`data/integer.py`: `simp_full`,
 `int_norm_conv`, `int_norm_eq`).
@@ -50,11 +52,16 @@ theorem evalE_embI (ρ : Nat → Int) (t : IExp) : evalE ρ (embI t) = evalI ρ 
 
 /-- The normal form has the identical `convert_to_poly` list as the term (polynomial semantics with
 x^n expanded), so two terms with the same normal form have the same polynomial.
-PARTIAL (`int_norm_canonical` is NOT proved): the converse -- same polynomial ⇒ same normal form --
-needs the normal-form closure of `insMI`/`multAtom`/... and that a normal-form tree is determined by
-its polynomial, as for the nat normaliser; note also that `simp_full` does not expand powers of
-non-atomic bases ((i + j)^2 stays an atom), so the converse can only hold on the fragment whose
-powers have atomic bases.  Canonicity is compared against the independent evaluator every run. -/
+PARTIAL (`int_norm_canonical` is NOT proved): the converse -- same polynomial ⇒ same normal form.
+Done so far along the nat template: the order (`int_bodyCmp_total`), closure of the multiplicative
+monomial layer (`int_mult_monomial_closed`).  Still missing: closure of the additive layer
+(`insMI` / `addPI` / `subPI` -- because coefficients can cancel, a monomial can disappear, so the
+"last monomial" invariant needs the transitivity now available), of `polyMonoI` / `mulPI` / `simpFull`
+(`int_norm_nf_closed`), the fixed-point lemma (`int_norm_idem`), and injectivity normal form ->
+polynomial (`fsB` with exponents), then `int_norm_eq_canonical`.  `simp_full` does not expand powers
+of non-atomic bases ((i + j)^2 stays an atom), so canonicity can only hold on the fragment
+`atomicPowers`.  The real `simp_full` outputs are checked against the shape `isNFI` and canonicity
+is compared against the independent evaluator every run. -/
 theorem int_norm_canonical_partial (a b : IExp) :
     toPoly (embI (intNorm a)) = toPoly (embI a) ∧
     (intNorm a = intNorm b → toPoly (embI a) = toPoly (embI b)) := by
@@ -63,5 +70,40 @@ theorem int_norm_canonical_partial (a b : IExp) :
   exact ⟨inv a, fun h => by rw [← inv a, ← inv b, h]⟩
 
 example : toPoly (embI (intNorm (.mul (.atom 0 1) (.atom 0 1)))) = [([(0, 2)], 1)] := by decide
+
+/-- The model's `fast_compare` on numeral exponents (size of the binary numeral term, `one` before
+`zero`, then the digits least significant first) is a strict total order. -/
+theorem int_numCmp_total :
+    (∀ n m, (numCmp n m).swap = numCmp m n) ∧ (∀ n m, numCmp n m = .eq → n = m) ∧
+    (∀ a b c, numCmp a b = .lt → numCmp b c = .lt → numCmp a c = .lt) :=
+  ⟨numCmp_swap, numCmp_eq, numCmp_trans⟩
+
+/- 4 < 6 < 5 < 7 in this order (same length, least significant digit first) -/
+example : numCmp 4 6 = .lt ∧ numCmp 6 5 = .lt ∧ numCmp 5 7 = .lt ∧ numCmp 4 7 = .lt := by decide
+
+/-- The model's `fast_compare` on integer monomial bodies (`x ^ e` with atomic base, and left-nested
+products of such) is a strict total order: swapped arguments give the swapped answer, `eq` only on
+identical bodies, `lt` transitive. -/
+theorem int_bodyCmp_total :
+    (∀ a b, (bodyCmp a b).swap = bodyCmp b a) ∧
+    (∀ a b, isTreeI a = true → isTreeI b = true → bodyCmp a b = .eq → a = b) ∧
+    (∀ a b c, isTreeI a = true → isTreeI b = true → isTreeI c = true →
+      bodyCmp a b = .lt → bodyCmp b c = .lt → bodyCmp a c = .lt) :=
+  ⟨bodyCmp_swap, bodyCmp_eq, bodyCmp_trans⟩
+
+/- i^2 < i * j (an atom against a product of the same size: `power` < `times`) and i * j < i^4 (size) -/
+example : bodyCmp (.pow (.atom 0 1) 2) (.mul (.pow (.atom 0 1) 1) (.pow (.atom 1 1) 1)) = .lt ∧
+    bodyCmp (.mul (.pow (.atom 0 1) 1) (.pow (.atom 1 1) 1)) (.pow (.atom 0 1) 4) = .gt := by decide
+
+/-- Closure of the multiplicative monomial layer: `norm_mult_atom` keeps a body (strictly increasing
+atomic bases) a body, and `norm_mult_monomial` maps two monomials (`c * body`, `c ≠ 0`, or a non-zero
+numeral) to a monomial. -/
+theorem int_mult_monomial_closed :
+    (∀ p c, isBodyI p = true → isAtomPow c = true → isBodyI (multAtom p c) = true) ∧
+    (∀ x y, isMonoI x = true → isMonoI y = true → isMonoI (multMono x y) = true) :=
+  ⟨fun _ _ hp hc => (multAtom_closed hp hc).1, fun _ _ hx hy => multMono_closed hx hy⟩
+
+example : isMonoI (multMono (.mul (.num 2) (.mul (.pow (.atom 0 1) 1) (.pow (.atom 1 1) 2)))
+    (.mul (.num (-3)) (.pow (.atom 0 1) 1))) = true := by decide
 
 end Holpy.C10
